@@ -183,7 +183,7 @@ def _rows_job(job):
     return rows
 
 
-def build_tables(tier: str, seed: int, families=("ref", "opt"), log=lambda *a: None):
+def build_tables(tier: str, seed: int, families=("ref", "opt"), log=lambda *a: None, lite=False):
     """Return (fields, rows, claims). Rows of one claim are contiguous."""
     rng = random.Random(seed)
     fields, jobs = [], []
@@ -195,7 +195,7 @@ def build_tables(tier: str, seed: int, families=("ref", "opt"), log=lambda *a: N
         n = size(f)
         big = d >= 6
         unary_cap = 5000 if quick else 600000
-        binary_cap = 90 if quick else 400   # all pairs when |F| <= cap
+        binary_cap = (30 if lite else 50) if quick else 400   # all pairs when |F| <= cap
         el_un = toy.elems(p, d) if n <= unary_cap else special_elems(f, rng, 60 if quick else 400)
         ex_un = n <= unary_cap
         if n <= binary_cap:
